@@ -254,3 +254,164 @@ impl ExportKeyingMaterial for SimFramed {
         Some(output)
     }
 }
+
+// ------------------------------------------------------------------------------------------
+// Duplex message pipe: two ends, each a `BytesStreamSink + ExportKeyingMaterial`; every frame is
+// recorded on a tap. Faults: close or error after the k-th frame in a direction.
+
+#[derive(Debug, Default)]
+pub struct Chan {
+    pub q: VecDeque<Bytes>,
+    pub waker: Option<Waker>,
+    pub closed: bool,
+    pub errored: bool,
+    pub error_delivered: bool,
+    pub sent: u64,
+    /// after this many frames have been sent in this direction: close (Some(false)) or error (Some(true))
+    pub cut_after: Option<(u64, bool)>,
+}
+
+#[derive(Debug, Default)]
+pub struct Tap {
+    /// (direction: 0 = a->b, 1 = b->a, frame)
+    pub frames: Vec<(u8, Bytes)>,
+}
+
+#[derive(Debug)]
+pub struct DuplexEnd {
+    dir: u8,
+    rx: Arc<Mutex<Chan>>,
+    tx: Arc<Mutex<Chan>>,
+    tap: Arc<Mutex<Tap>>,
+    pub keying: Option<[u8; 32]>,
+}
+
+pub fn duplex() -> (DuplexEnd, DuplexEnd, Arc<Mutex<Tap>>) {
+    let ab: Arc<Mutex<Chan>> = Default::default();
+    let ba: Arc<Mutex<Chan>> = Default::default();
+    let tap: Arc<Mutex<Tap>> = Default::default();
+    (
+        DuplexEnd { dir: 0, rx: ba.clone(), tx: ab.clone(), tap: tap.clone(), keying: None },
+        DuplexEnd { dir: 1, rx: ab, tx: ba, tap: tap.clone(), keying: None },
+        tap,
+    )
+}
+
+impl DuplexEnd {
+    pub fn tx_chan(&self) -> Arc<Mutex<Chan>> {
+        self.tx.clone()
+    }
+    pub fn rx_chan(&self) -> Arc<Mutex<Chan>> {
+        self.rx.clone()
+    }
+}
+
+impl Drop for DuplexEnd {
+    fn drop(&mut self) {
+        let mut g = self.tx.lock().unwrap();
+        g.closed = true;
+        if let Some(w) = g.waker.take() {
+            w.wake();
+        }
+    }
+}
+
+impl Stream for DuplexEnd {
+    type Item = Result<Bytes, AnyError>;
+    fn poll_next(self: Pin<&mut Self>, cx: &mut Context<'_>) -> Poll<Option<Self::Item>> {
+        let mut g = self.rx.lock().unwrap();
+        if let Some(b) = g.q.pop_front() {
+            return Poll::Ready(Some(Ok(b)));
+        }
+        if g.errored && !g.error_delivered {
+            g.error_delivered = true;
+            return Poll::Ready(Some(Err(AnyError::from_std(std::io::Error::other("sim: connection reset")))));
+        }
+        if g.closed || g.errored {
+            return Poll::Ready(None);
+        }
+        g.waker = Some(cx.waker().clone());
+        Poll::Pending
+    }
+}
+
+impl Sink<Bytes> for DuplexEnd {
+    type Error = AnyError;
+    fn poll_ready(self: Pin<&mut Self>, _cx: &mut Context<'_>) -> Poll<Result<(), AnyError>> {
+        let g = self.tx.lock().unwrap();
+        if g.closed || g.errored {
+            return Poll::Ready(Err(AnyError::from_std(std::io::Error::other("sim: broken pipe"))));
+        }
+        Poll::Ready(Ok(()))
+    }
+    fn start_send(self: Pin<&mut Self>, item: Bytes) -> Result<(), AnyError> {
+        let mut g = self.tx.lock().unwrap();
+        if g.closed || g.errored {
+            return Err(AnyError::from_std(std::io::Error::other("sim: broken pipe")));
+        }
+        self.tap.lock().unwrap().frames.push((self.dir, item.clone()));
+        g.q.push_back(item);
+        g.sent += 1;
+        if let Some((k, err)) = g.cut_after {
+            if g.sent >= k {
+                if err { g.errored = true } else { g.closed = true }
+            }
+        }
+        if let Some(w) = g.waker.take() {
+            w.wake();
+        }
+        Ok(())
+    }
+    fn poll_flush(self: Pin<&mut Self>, _cx: &mut Context<'_>) -> Poll<Result<(), AnyError>> {
+        Poll::Ready(Ok(()))
+    }
+    fn poll_close(self: Pin<&mut Self>, _cx: &mut Context<'_>) -> Poll<Result<(), AnyError>> {
+        let mut g = self.tx.lock().unwrap();
+        g.closed = true;
+        if let Some(w) = g.waker.take() {
+            w.wake();
+        }
+        Poll::Ready(Ok(()))
+    }
+}
+
+fn prf(secret: &[u8; 32], label: &[u8], context: Option<&[u8]>, out: &mut [u8]) {
+    let mut h = blake3::Hasher::new_keyed(secret);
+    h.update(&(label.len() as u64).to_le_bytes());
+    h.update(label);
+    if let Some(c) = context {
+        h.update(&[1]);
+        h.update(&(c.len() as u64).to_le_bytes());
+        h.update(c);
+    } else {
+        h.update(&[0]);
+    }
+    h.finalize_xof().fill(out);
+}
+
+/// The PRF used by the simulated TLS exporter (so that the harness can recompute material).
+pub fn sim_export(secret: &[u8; 32], label: &[u8], context: Option<&[u8]>) -> [u8; 32] {
+    let mut out = [0u8; 32];
+    prf(secret, label, context, &mut out);
+    out
+}
+
+impl ExportKeyingMaterial for DuplexEnd {
+    fn export_keying_material<T: AsMut<[u8]>>(
+        &self,
+        mut output: T,
+        label: &[u8],
+        context: Option<&[u8]>,
+    ) -> Option<T> {
+        let secret = self.keying?;
+        prf(&secret, label, context, output.as_mut());
+        Some(output)
+    }
+}
+
+/// Variable-length variant of [`sim_export`].
+pub fn sim_export_n(secret: &[u8; 32], label: &[u8], context: Option<&[u8]>, n: usize) -> Vec<u8> {
+    let mut out = vec![0u8; n];
+    prf(secret, label, context, &mut out);
+    out
+}
